@@ -423,6 +423,13 @@ func raceOwnership(variant int, seed uint64) string {
 // raceRestart: a supervisor keeps calling Serve on a fresh connection (it is refused until the
 // service is stopped) while Shutdown is still finishing.
 func raceRestart(workers int, seed uint64) string {
+	// widen the tail of Shutdown (a delay by time only: it adds no happens-before edge)
+	setHooks(nil, func(point string) {
+		if point == "shutdown.waited" {
+			time.Sleep(2 * time.Millisecond)
+		}
+	})
+	defer setHooks(nil, nil)
 	s := res.NewService("rr")
 	s.SetLogger(logger.NewMemLogger())
 	s.SetWorkerCount(workers)
